@@ -5,3 +5,5 @@ package timed
 import "time"
 
 func verifPollHook(time.Time) {}
+
+func verifAddHook(time.Time) {}
